@@ -178,7 +178,7 @@ func init() {
 		Real: defaultReal, Stub: defaultStub, Assume: defaultAssume,
 		Body: c07Body,
 	})
-	probeNames["C10"] = []string{"twin_compared", "reopen_point", "freelist_pages_ge2", "freelist_pages_ge3", "region_ge255", "wal_mapping_pages_ge2", "remap_on_open", "grown_past_initial_mapping"}
+	probeNames["C10"] = []string{"twin_compared", "reopen_point", "freelist_pages_ge2", "freelist_pages_ge3", "region_ge255", "wal_mapping_pages_ge2", "grown_past_initial_mapping"}
 	register(&PropDef{
 		ID: "C10", Level: "exploration", QuickSec: 50, ThoroSec: 900,
 		Rule: "twin execution with generated clean restarts: run A executes a seeded program on one File instance, run B executes the same program with Close+Open interposed at seeded points between transactions. At every reopen point the allocator/WAL snapshot before Close must equal the one after Open and the model check must pass; afterwards the twins must agree on every operation outcome, on contents, on free page sets, on the capacity probe and on FileStats. Mixes are biased to fragmented free lists spanning several metadata pages, regions >= 255 pages, many pending overwrites and files grown past the initial mapping. Non-trivial = run with at least one reopen point at which the free list or overwrite mapping was non-empty; distinct = op list + config + reopen points + schedule hash.",
